@@ -103,13 +103,14 @@ KIN_ADD = ["Kd_Br", "Kd_Li", "Kd_F"]
 EXCH_ADD = {"KX": ("K", 1), "SrX2": ("Sr", 2), "LiX": ("Li", 1), "BaX2": ("Ba", 2)}
 SALTS = {"NaCl": {"Na": 1, "Cl": 1}, "KCl": {"K": 1, "Cl": 1}, "CaCl2": {"Ca": 1, "Cl": 2}, "MgCl2": {"Mg": 1, "Cl": 2},
          "Na2SO4": {"Na": 2, "S(6)": 1}, "NaHCO3": {"Na": 1, "C(4)": 1}, "SrCl2": {"Sr": 1, "Cl": 2}}
+REDOX_PAIRS = [["Fe(2)", "Fe(3)"], ["N(5)", "N(-3)"], ["S(6)", "S(-2)"], ["N(5)", "N(3)"]]
 SS_SETS = {"CaSr": ["Calcite", "Strontianite"], "BaSr": ["Barite", "Celestite"], "MnZn": ["Rhodochrosite", "Smithsonite"],
            "PbCd": ["Cerussite", "Otavite"]}
 DEF_SS = ["BaSr", "CaSr"]
 PP_POOL = ["Calcite", "Gypsum", "CO2(g)", "Quartz", "Celestite", "Barite"]
 REACTANTS = ["NaCl", "KCl", "CaCl2", "HCl", "NaOH", "CO2", "Na2SO4"]
 MODS = {
-    "SOLUTION": ["temp", "pH", "mass_water", "cb", "pressure", "tot"],
+    "SOLUTION": ["temp", "pH", "mass_water", "cb", "pressure", "tot", "tot_bare", "tot_val", "tot_multi"],
     "EQUILIBRIUM_PHASES": ["moles", "si", "add"],
     "EXCHANGE": ["exchange_gammas", "la", "add"],
     "SURFACE": ["thickness", "la", "grams"],
@@ -120,7 +121,7 @@ MODS = {
     "REACTION_TEMPERATURE": ["temps"],
     "REACTION_PRESSURE": ["pressures", "count"],
 }
-MOD_RANGE = {"add": (1e-3, 0.1), "temp": (5.0, 45.0), "pH": (5.0, 9.0), "mass_water": (0.5, 2.0), "cb": (-1e-4, 1e-4), "pressure": (1.0, 10.0),
+MOD_RANGE = {"tot_bare": (1e-6, 1e-3), "tot_val": (1e-6, 1e-3), "tot_multi": (1e-6, 1e-3), "add": (1e-3, 0.1), "temp": (5.0, 45.0), "pH": (5.0, 9.0), "mass_water": (0.5, 2.0), "cb": (-1e-4, 1e-4), "pressure": (1.0, 10.0),
              "tot": (1e-4, 1e-2), "moles": (0.0, 1.0), "si": (-1.0, 1.0), "exchange_gammas": (0, 1), "la": (-3.0, 3.0),
              "thickness": (1e-9, 1e-7), "grams": (0.5, 5.0), "volume": (0.5, 5.0), "total_p": (0.1, 5.0), "a0": (0.0, 1.0),
              "m": (1e-4, 1.0), "step_divide": (1, 10), "cvode_steps": (10, 200), "tol": (1e-10, 1e-6),
@@ -224,6 +225,8 @@ class Model(object):
                 flags.add("modify")
                 if md["field"] == "add":
                     flags.add("modify_add")
+                if md["field"].startswith("tot_"):
+                    flags.add("modify_" + md["field"])
             else:
                 flags.add("modify_missing")
         first_def = {}
@@ -438,6 +441,8 @@ def render_def(d):
         for salt, c in p["salts"]:
             for el, nu in SALTS[salt].items():
                 tot[el] = tot.get(el, 0.0) + nu * c
+        for el, c in p.get("redox", []):
+            tot[el] = tot.get(el, 0.0) + c
         for el in sorted(tot):
             L.append(" %s %s" % (el, fmt(float("%.6g" % tot[el]))))
     elif k == "EQUILIBRIUM_PHASES":
@@ -538,11 +543,56 @@ def mod_target(md, ent):
             return ([" -component %s" % c, "  -totals", "   %s %s" % (el, fmt(v)), "   X %s" % fmt(v * z), "  -la 0", "  -charge_balance 0",
                      "  -formula_z 0"], "/component/%s/totals/%s" % (c, el), ["/component/%s" % c], v)
         raise OutOfDomain("add " + k)
+    if k == "SOLUTION" and f in ("tot_bare", "tot_val", "tot_multi"):
+        # SOLUTION_MODIFY -totals and valence states.  RELEASE.TXT (svn 5281): "change a total for an element ... All valence
+        # states of redox elements are adjusted"; NameDouble.cxx merge_redox "accounts for possible conflicts between redox
+        # state and totals".  Rule (observed on the unchanged tree and the only reading that leaves one total per element):
+        #   naming the bare element E   -> every E(v) entry is removed, E holds the value;
+        #   naming one valence E(v)     -> E(v) holds the value, a bare E entry is removed, other valences E(w) stay;
+        #   several lines               -> applied one after the other;
+        # the -activities of all master species of the element follow (documented adjustment).
+        tot = ent.get("totals") if isinstance(ent.get("totals"), dict) else {}
+        base = lambda e: e.split("(", 1)[0]
+        val_entries = sorted(e for e in tot if "(" in e and base(e) not in ("H", "O"))
+        nval = {}
+        for e in val_entries:
+            nval[base(e)] = nval.get(base(e), 0) + 1
+        bases = sorted(nval, key=lambda b: (-min(nval[b], 2), b))          # elements with >= 2 valence entries first
+        plain = sorted(e for e in tot if "(" not in e and e not in ("H", "O"))
+        picks = []                                                           # (name, value)
+        if f == "tot_bare" and bases:
+            picks = [(bases[idx % len(bases)], v)]
+        elif f == "tot_val" and val_entries:
+            picks = [(val_entries[idx % len(val_entries)], v)]
+        elif f == "tot_multi":
+            a = bases[idx % len(bases)] if bases else None
+            if a:
+                picks.append((a, v))
+            others = [e for e in plain if e != a]
+            if others:
+                picks.append((others[idx % len(others)], v / 2))
+            vals = [e for e in val_entries if base(e) != a and base(e) not in [base(x[0]) for x in picks]]
+            if vals:
+                picks.append((vals[idx % len(vals)], v / 4))
+        if len(picks) >= (2 if f == "tot_multi" else 1):
+            lines, allowed, more, absent = [" -totals"], [], [], []
+            for name, x in picks:
+                x = float("%.6g" % x)
+                lines.append("  %s %s" % (name, fmt(x)))
+                b = base(name)
+                allowed += ["/totals/" + b, "/totals/" + b + "(", "/activities/" + b, "/activities/" + b + "("]
+                more.append(("/totals/" + name, x))
+                absent.append(b + "(" if "(" not in name else b)
+            return {"lines": lines, "path": more[0][0], "allowed": allowed, "value": more[0][1], "more": more[1:], "absent": absent}
+        f = "tot"                                                            # nothing suitable in this entry: plain element
     if k == "SOLUTION":
         if f == "tot":
             els = [e for e in (ent.get("totals") or {}) if "(" not in e and e not in ("H", "O")] if isinstance(ent.get("totals"), dict) else []
             el = _pick(els, idx) or "Na"
-            return [" -totals", "  %s %s" % (el, fmt(v))], "/totals/" + el, ["/totals/" + el, "/activities/" + el], v
+            # a bare entry may belong to a redox element (after an earlier -totals E): the activities of all its valence
+            # master species follow the new total (documented), and no valence entry may appear beside it
+            return {"lines": [" -totals", "  %s %s" % (el, fmt(v))], "path": "/totals/" + el, "value": v, "more": [], "absent": [el + "("],
+                    "allowed": ["/totals/" + el, "/totals/" + el + "(", "/activities/" + el, "/activities/" + el + "("]}
         return [" -%s %s" % (f, fmt(v))], "/" + f, ["/" + f], v
     if k == "EQUILIBRIUM_PHASES":
         c = _pick(comps, idx) or "Calcite"
@@ -600,12 +650,16 @@ def mod_target(md, ent):
 def mod_plan(md, ent):
     """-> dict(lines, path, allowed, value)"""
     r = mod_target(md, ent)
+    if isinstance(r, dict):
+        r = dict(r)
+        r["allowed"] = list(r["allowed"]) + ["/new_def"] + WORKSPACE.get(md["kind"], [])
+        return r
     # `-new_def` is an internal flag that every RAW reader clears (dump comment: "candidates with new_def=true")
     return {"lines": r[0], "path": r[1], "allowed": list(r[2]) + ["/new_def"] + WORKSPACE.get(md["kind"], []), "value": r[3]}
 
 
 def render_mod(md, ent):
-    lines = mod_target(md, ent)[0]
+    lines = mod_plan(md, ent)["lines"]
     head = "%s_MODIFY" % md["kind"] if md["n"] is None else "%s_MODIFY %d" % (md["kind"], md["n"])
     return "\n".join([head] + lines)
 
@@ -702,7 +756,16 @@ def params(draw, kind, M):
     sols = sorted(n for n in M.m["SOLUTION"] if n >= 0)
     if kind == "SOLUTION":
         salts = draw(st.lists(st.sampled_from(sorted(SALTS)), min_size=1, max_size=3, unique=True))
-        return {"salts": [[s, draw(_lg(0.05, 30.0))] for s in salts], "pH": draw(_un(5.5, 9.0)), "temp": draw(_un(10.0, 40.0))}
+        p = {"salts": [[s, draw(_lg(0.05, 30.0))] for s in salts], "pH": draw(_un(5.5, 9.0)), "temp": draw(_un(10.0, 40.0))}
+        if draw(st.integers(0, 2)) == 0:
+            # redox elements entered by valence state: the stored totals then hold two entries of one element
+            pairs = draw(st.lists(st.integers(0, len(REDOX_PAIRS) - 1), min_size=1, max_size=2, unique=True))
+            red = {}
+            for i in pairs:
+                for name in REDOX_PAIRS[i]:
+                    red.setdefault(name, draw(_lg(1e-3, 0.2)))
+            p["redox"] = [[name, red[name]] for name in sorted(red)]
+        return p
     if kind == "EQUILIBRIUM_PHASES":
         ph = draw(st.lists(st.sampled_from(PP_POOL), min_size=1, max_size=2, unique=True))
         return {"phases": [[x, draw(_un(-3.5, -1.5)) if x == "CO2(g)" else 0.0, draw(st.sampled_from([0.0, 0.001, 0.1, 1.0]))] for x in ph]}
@@ -932,6 +995,8 @@ def op_modify(draw, M):
     f = draw(st.sampled_from(MODS[k]))
     if "add" in MODS[k] and draw(st.integers(0, 2)) == 0:
         f = "add"
+    if k == "SOLUTION" and draw(st.booleans()):
+        f = draw(st.sampled_from(["tot_bare", "tot_bare", "tot_val", "tot_multi"]))
     lo, hi = MOD_RANGE[f]
     v = draw(st.integers(lo, hi)) if f in INT_FIELDS else draw(_un(lo, hi, 4) if lo <= 0 else _lg(lo, hi, 4))
     md = {"kind": k, "n": None if (n == 1 and draw(st.integers(0, 3)) == 0) else n, "field": f, "idx": draw(st.integers(0, 9)), "value": v}
